@@ -1,5 +1,6 @@
 """Analysis kit shared by the rules: regions, loops, error edges, result consumption,
 value provenance. Generic over MIR; lace-specific names are passed in by the rules."""
+import re
 from .facts import (callee_of, op_local, op_place, place_is_local, place_key, const_int,
                     sp_file_line, short, expr_walk)
 
@@ -573,7 +574,30 @@ def default_origins(prog, fn, blocks=None):
 _VIDX = {"None": 0, "Some": 1, "Ok": 0, "Err": 1, "Continue": 0, "Break": 1}
 
 
-def feasible_path_avoiding(fn, start, goal, avoid, limit=20000):
+def _enum_const_discr(prog, fn, op):
+    """discriminant of the fieldless-enum constant an operand refers to (`&Ordering::Equal` as a promoted), else None"""
+    if prog is None:
+        return None
+    try:
+        e = resolve_promoteds(prog, fn.expr(op, 6))
+    except Exception:
+        return None
+    while e[0] in ("ref", "deref"):
+        e = e[1]
+    if e[0] == "agg" and e[1][0] == "adt" and not e[2]:
+        adt = prog.adts.get(e[1][1])
+        if adt:
+            for v in adt["variants"]:
+                if v["name"] == e[1][2]:
+                    return v.get("discr", v["idx"])
+        return _STD_DISCR.get((e[1][1], e[1][2]))
+    return None
+
+
+_STD_DISCR = {("core::cmp::Ordering", "Less"): -1, ("core::cmp::Ordering", "Equal"): 0, ("core::cmp::Ordering", "Greater"): 1}
+
+
+def feasible_path_avoiding(fn, start, goal, avoid, limit=20000, prog=None, facts0=None):
     """Is there a path start -> goal that avoids the blocks in `avoid` and is consistent with what each path itself establishes
     about Option/Result/ControlFlow-valued locals? Along a path we remember the variant last stored into a local (an aggregate
     `Some(..)`/`None`/..., a copy or move of such a local, the result of Try::branch on one); a switch on the discriminant of a
@@ -625,6 +649,25 @@ def feasible_path_avoiding(fn, start, goal, avoid, limit=20000):
                     facts[d["l"]] = "None"          # `?` on an Option re-raises None
                 elif c.endswith("::from_residual") and fn.local_ty(d["l"]).startswith("core::result::Result"):
                     facts[d["l"]] = "Err"
+                elif re.search(r"cmp::PartialEq(<.*>)?>?::(eq|ne)$", c) and len(t.get("args", [])) == 2 and prog is not None:
+                    # `x != Ordering::Equal` on a local whose variant this path has already branched on
+                    val = None
+                    for i_, j_ in ((0, 1), (1, 0)):
+                        e_ = fn.expr(t["args"][i_], 4, stop={"named"})
+                        while e_[0] in ("ref", "deref"):
+                            e_ = e_[1]
+                        if e_[0] == "local" and isinstance(facts.get(e_[1]), tuple) and facts[e_[1]][0] in ("discr", "notdiscr"):
+                            w = _enum_const_discr(prog, fn, t["args"][j_])
+                            if w is not None:
+                                f_ = facts[e_[1]]
+                                if f_[0] == "discr":
+                                    val = (f_[1] == w)
+                                elif w in f_[1]:
+                                    val = False
+                    if val is None:
+                        facts.pop(d["l"], None)
+                    else:
+                        facts[d["l"]] = ("int", int(val if c.endswith("eq") else not val))
                 else:
                     facts.pop(d["l"], None)
             if t.get("t") is None:
@@ -640,12 +683,23 @@ def feasible_path_avoiding(fn, start, goal, avoid, limit=20000):
                 known = facts[sl][1]
             succs = []
             tg = {v: x for v, x in t["targets"]}
+            dl = sw[0]["l"] if sw and not sw[0].get("pr") else None      # a match on a plain enum local: remember which arm was taken
+            if known is None and dl is not None and isinstance(facts.get(dl), tuple) and facts[dl][0] == "discr":
+                known = facts[dl][1]
             if known is not None:
-                succs = [tg.get(known, t["otherwise"])]
+                succs = [(tg.get(known, t["otherwise"]), None)]
             else:
-                succs = [x for v, x in t["targets"]] + [t["otherwise"]]
-            for x in dict.fromkeys(succs):
-                r_ = step(x, facts, path + [b])
+                succs = [(x, ("discr", v)) for v, x in t["targets"]] + [(t["otherwise"], ("notdiscr", tuple(v for v, x in t["targets"])))]
+            done = set()
+            for x, learned in succs:
+                if (x, learned) in done:
+                    continue
+                done.add((x, learned))
+                f2 = facts
+                if learned is not None and dl is not None and prog is not None:
+                    f2 = dict(facts)
+                    f2[dl] = learned
+                r_ = step(x, f2, path + [b])
                 if r_:
                     return r_
             return None
@@ -656,7 +710,7 @@ def feasible_path_avoiding(fn, start, goal, avoid, limit=20000):
     old = sys.getrecursionlimit()
     sys.setrecursionlimit(max(old, 20000))
     try:
-        return step(start, {}, [])
+        return step(start, dict(facts0 or {}), [])
     finally:
         sys.setrecursionlimit(old)
 
